@@ -49,6 +49,7 @@ def run(tier, seed, rep):
                           dict(definition=d, event=ev, tlc=text, files={"def.rs": files.get(d["id"], "") if d else ""}))
         name, res, consts = mc.result()
         rep.add_model(name, res, consts)
+    evs = [e for e in evs if e.get("op") != "panic"]      # PANIC_FILTER: statistics only (panic events were judged by TLC above)
     rep.cov["programs"] = len(defs) - len(failed)
     rep.cov["evaluations"] = sum(len(e["m"]) for e in evs if e["op"] == "is") + sum(1 for e in evs if e["op"] == "tryas")
     rep.cov["distinct_nontrivial"] = len({(e["def"], e["i"], e.get("j"), e.get("mode")) for e in evs})
